@@ -15,6 +15,8 @@ import (
 	"go/ast"
 	"go/printer"
 	"go/token"
+	"os"
+	"path/filepath"
 	"sort"
 )
 
@@ -36,6 +38,25 @@ var primList = map[string]string{
 	"Type":                  "match",
 	"typePlaceholder":       "match",
 	"typeCheck":             "match",
+	// the comparator handed to slices.SortFunc / slices.IsSortedFunc: the model's natLt is `a != b && natural.Less(a, b)`
+	"naturalSort": "snaps",
+}
+
+// third-party modules that have an executable Lean MODEL (Natural.lean, Json.lean, JsonPath.lean): the model was
+// written against, and is compared with, exactly this version; the module cache is immutable per version (go.sum),
+// so the version required by go.mod identifies the source the model describes
+var modList = []string{"github.com/maruel/natural", "github.com/tidwall/gjson", "github.com/tidwall/pretty", "github.com/tidwall/sjson"}
+
+func modVersion(gomod, mod string) string {
+	for _, l := range bytes.Split([]byte(gomod), []byte("\n")) {
+		f := bytes.Fields(l)
+		for i := 0; i+1 < len(f); i++ {
+			if string(f[i]) == mod {
+				return string(f[i+1])
+			}
+		}
+	}
+	return ""
 }
 
 func declText(p *pkgInfo, fd *ast.FuncDecl) string {
@@ -49,6 +70,8 @@ func declText(p *pkgInfo, fd *ast.FuncDecl) string {
 	}
 	return b.String()
 }
+
+var repoRoot string
 
 func checkPrims(F *facts, pkgs map[string]*pkgInfo, writeTo string) {
 	want := map[string]string{}
@@ -71,6 +94,16 @@ func checkPrims(F *facts, pkgs map[string]*pkgInfo, writeTo string) {
 			got[n] = declText(p, p.fn(n))
 			if writeTo == "" && got[n] != want[n] {
 				fail("%s is no longer the function the run-time semantics assumes:\n%s", n, got[n])
+			}
+		})
+	}
+	gomod, _ := os.ReadFile(filepath.Join(repoRoot, "go.mod"))
+	for _, m := range modList {
+		m := m
+		soft(F, "mod "+m, func() {
+			got["mod "+m] = modVersion(string(gomod), m)
+			if writeTo == "" && got["mod "+m] != want["mod "+m] {
+				fail("go.mod requires %s %q, the Lean model of it describes %q", m, got["mod "+m], want["mod "+m])
 			}
 		})
 	}
